@@ -233,6 +233,14 @@ func c03Table(vid int, v c03Vec, reqs []c03Route, sym *c03Sym) *c03Obs {
 			return fmt.Errorf("unknown route op %q", rt.Op)
 		})
 	}
+	// some registrations only happen after the mux has served its first request (a mux may be extended while it serves):
+	// the last route of the table, or the current default route
+	var late []reg
+	lateKind := rnd.Intn(3) // 0: nothing late; 1: the current default route (if any); 2: the last route (if any)
+	if lateKind == 2 && len(regs) > 0 {
+		late = append(late, regs[len(regs)-1])
+		regs = regs[:len(regs)-1]
+	}
 	insert := func(fn reg) {
 		pos := rnd.Intn(len(regs) + 1)
 		regs = append(regs, nil)
@@ -248,7 +256,9 @@ func c03Table(vid int, v c03Vec, reqs []c03Route, sym *c03Sym) *c03Obs {
 	for g := v.Def; g >= 1; g-- {
 		g := g
 		fn := func() error { return mux.DefaultRoute(handler(c03Label{"d", g})) }
-		if g == v.Def {
+		if g == v.Def && lateKind == 1 {
+			late = append(late, fn)
+		} else if g == v.Def {
 			insert(fn)
 		} else {
 			// earlier generations go to the front so that the last registered is the highest
@@ -271,12 +281,35 @@ func c03Table(vid int, v c03Vec, reqs []c03Route, sym *c03Sym) *c03Obs {
 		}
 	}
 	closed := make(chan int, 4)
-	srv, err := hx.StartServer(mux, []gldap.Option{gldap.WithLogger(hx.NullLogger()), gldap.WithOnClose(func(id int) { closed <- id })}, nil)
+	srv, err := hx.StartServer(mux, []gldap.Option{gldap.WithLogger(hx.LoggerFor(vid)), gldap.WithOnClose(func(id int) { closed <- id })}, nil)
 	if err != nil {
 		o.Err = err.Error()
 		return o
 	}
 	defer srv.Stop(10 * time.Second)
+	if len(late) > 0 {
+		// warm-up: one request is served by the table as it is so far, then the remaining registrations are made
+		if wc, err := lx.Dial(srv.Addr, 5*time.Second); err == nil {
+			_ = wc.Send(lx.Envelope(77, lx.DelReq("cn=warm-up"), nil))
+			_, _ = wc.Recv(2 * time.Second)
+			wc.Close()
+			select {
+			case <-closed:
+			case <-time.After(2 * time.Second):
+			}
+		}
+		mu.Lock()
+		for k := range ran {
+			delete(ran, k) // what the warm-up request ran is not part of the observation
+		}
+		mu.Unlock()
+		for _, fn := range late {
+			if err := fn(); err != nil {
+				o.Err = err.Error()
+				return o
+			}
+		}
+	}
 	c, err := lx.Dial(srv.Addr, 5*time.Second)
 	if err != nil {
 		o.Err = err.Error()
